@@ -1,1 +1,261 @@
-fn main() {}
+//! Harness for the single-node store (crates/sierradb): replays EventStore.tla /
+//! Durability.tla behaviours on a real Database and checks every observation against the
+//! specification.
+use std::path::PathBuf;
+
+use hcommon::{Report, read_ndjson};
+use serde_json::{Value, json};
+
+mod verify;
+mod world;
+
+use verify::verify_reads;
+use world::*;
+
+fn main() {
+    hcommon::quiet_panics();
+    let args: Vec<String> = std::env::args().collect();
+    let mut rep = Report::new();
+    let rt = tokio::runtime::Builder::new_multi_thread().worker_threads(4).enable_all().build().unwrap();
+    match args[1].as_str() {
+        "replay" => rt.block_on(replay(&mut rep, &args[2], &args[3])),
+        other => panic!("unknown subcommand {other}"),
+    }
+    rep.finish();
+    // reader/writer pools of dropped databases may still be winding down
+    std::process::exit(0);
+}
+
+pub fn scratch(name: &str) -> PathBuf {
+    let d = std::env::current_dir().unwrap().join(format!("store-{}-{}", std::process::id(), name));
+    let _ = std::fs::remove_dir_all(&d);
+    std::fs::create_dir_all(&d).unwrap();
+    d
+}
+
+pub async fn close(w: &mut World) {
+    if let Some(db) = w.db.take() {
+        db.shutdown().await;
+        drop(db);
+    }
+}
+
+pub async fn reopen(w: &mut World) -> Result<(), String> {
+    close(w).await;
+    let db = w.cfg.open(&w.dir)?;
+    w.db = Some(db);
+    Ok(())
+}
+
+struct Variant {
+    cfg: DbCfg,
+    rule: PayloadRule,
+    name: &'static str,
+}
+
+fn variants(which: &str, quick: bool) -> Vec<Variant> {
+    let mut v = vec![];
+    let base = |nb| DbCfg::small(nb);
+    match which {
+        "c02" => {
+            v.push(Variant { cfg: base(2), rule: PayloadRule::Tiny, name: "tiny" });
+            v.push(Variant { cfg: DbCfg { compression: true, ..base(2) }, rule: PayloadRule::Rollover, name: "rollover+zstd" });
+            if !quick {
+                v.push(Variant { cfg: DbCfg { writer_threads: 2, ..base(2) }, rule: PayloadRule::Mixed, name: "2-writers" });
+            }
+        }
+        _ => {
+            v.push(Variant { cfg: base(2), rule: PayloadRule::Straddle, name: "straddle-128k" });
+            v.push(Variant { cfg: DbCfg { compression: true, ..base(2) }, rule: PayloadRule::Rollover, name: "rollover+zstd" });
+            if !quick {
+                v.push(Variant { cfg: DbCfg { segment_size: 1 << 20, ..base(2) }, rule: PayloadRule::Straddle, name: "straddle-1m" });
+                v.push(Variant { cfg: DbCfg { segment_size: 256 * 1024, compression: true, ..base(2) }, rule: PayloadRule::Mixed, name: "mixed-256k" });
+            }
+        }
+    }
+    v
+}
+
+/// Replays one behaviour; Err((key, detail)) on the first divergence.
+async fn run_behaviour(which: &str, beh: &Value, var: &Variant, dir: PathBuf, seed: u64, stats: &mut Stats) -> Result<(), (String, Value)> {
+    use rand::{RngExt, SeedableRng};
+    let mut rng = rand::rngs::StdRng::seed_from_u64(seed ^ 0xabcd);
+    let nb = var.cfg.nb;
+    let mut w = World::new(dir, var.cfg.clone(), var.rule, seed).map_err(|e| ("open".to_string(), json!(e)))?;
+    let steps = beh["steps"].as_array().unwrap();
+    for (k, st) in steps.iter().enumerate() {
+        let tx = &st["tx"];
+        let res = &st["res"];
+        let prep = w.prepare(tx);
+        let got = w.db().append_events(prep.tx.clone()).await;
+        stats.appends += 1;
+        if let Err(e) = w.compare_append(&prep, res, &got) {
+            return Err((format!("{which}:append-outcome"), json!({"step": k, "tx": tx, "model": res, "problem": e})));
+        }
+        match &got {
+            Ok(_) => {
+                stats.accepted += 1;
+                w.record(prep, res);
+            }
+            Err(e) => {
+                *stats.rejects.entry(class_of(e).to_string()).or_default() += 1;
+            }
+        }
+        // latest-version / latest-sequence queries after every step (C02)
+        let post = &st["post"];
+        for b in 0..nb {
+            for (s, v) in post["lv"][b as usize].as_object().unwrap() {
+                let real = latest(w.db(), &w, b, s).await.map_err(|e| (format!("{which}:latest-version"), json!({"step": k, "problem": e})))?;
+                if real != v.as_i64().unwrap() {
+                    return Err((format!("{which}:latest-version"), json!({"step": k, "tx": tx, "bucket": b, "stream": s, "real": real, "model": v})));
+                }
+            }
+        }
+        for (p, v) in post["ls"].as_array().unwrap().iter().enumerate() {
+            let real = latest_seq(w.db(), p as u16).await.map_err(|e| (format!("{which}:latest-sequence"), json!({"step": k, "problem": e})))?;
+            if real != v.as_i64().unwrap() {
+                return Err((format!("{which}:latest-sequence"), json!({"step": k, "tx": tx, "partition": p, "real": real, "model": v})));
+            }
+        }
+        // stutter steps the functional model does not see
+        if rng.random_range(0..12) == 0 {
+            stats.reopens += 1;
+            reopen(&mut w).await.map_err(|e| (format!("{which}:reopen"), json!({"step": k, "problem": e})))?;
+        }
+        if which != "c02" && rng.random_range(0..10) == 0 {
+            let r = verify_reads(&w, false, false).await.map_err(|e| (format!("{which}:read"), json!({"step": k, "problem": e, "storage": "live"})))?;
+            stats.add(&r);
+        }
+    }
+    // the harness's reference log must be the specification's final log
+    for (p, l) in beh["log"].as_array().unwrap().iter().enumerate() {
+        let mine: Vec<(u64, String, u64)> = w.log.get(&(p as u16)).map(|l| l.iter().map(|e| (e.tx, e.stream.clone(), e.ver)).collect()).unwrap_or_default();
+        let spec: Vec<(u64, String, u64)> = l.as_array().unwrap().iter().map(|e| (e["tx"].as_u64().unwrap(), e["s"].as_str().unwrap().to_string(), e["ver"].as_u64().unwrap())).collect();
+        assert_eq!(mine, spec, "harness bookkeeping diverged from the specification's log");
+    }
+    let dense = which != "c02";
+    // C02 is about append outcomes and the latest-version queries only; scans belong to C03
+    let storages: &[&str] = if which == "c02" { &[] } else { &["live", "reopened"] };
+    for &storage in storages {
+        if storage == "reopened" {
+            stats.reopens += 1;
+            reopen(&mut w).await.map_err(|e| (format!("{which}:reopen"), json!({"problem": e, "at": "end"})))?;
+        }
+        let r = verify_reads(&w, dense, true).await.map_err(|e| (format!("{which}:read"), json!({"problem": e, "storage": storage})))?;
+        stats.add(&r);
+    }
+    stats.segments += count_segments(&w.dir);
+    close(&mut w).await;
+    let _ = std::fs::remove_dir_all(&w.dir);
+    Ok(())
+}
+
+fn count_segments(dir: &std::path::Path) -> u64 {
+    let mut n = 0;
+    if let Ok(rd) = std::fs::read_dir(dir.join("buckets")) {
+        for b in rd.flatten() {
+            if let Ok(s) = std::fs::read_dir(b.path().join("segments")) {
+                n += s.count() as u64;
+            }
+        }
+    }
+    n
+}
+
+#[derive(Default)]
+pub struct Stats {
+    appends: u64,
+    accepted: u64,
+    rejects: std::collections::BTreeMap<String, u64>,
+    reopens: u64,
+    scans: u64,
+    events_compared: u64,
+    lookups: u64,
+    segments: u64,
+}
+
+impl Stats {
+    fn add(&mut self, r: &verify::ReadStats) {
+        self.scans += r.scans;
+        self.events_compared += r.events_compared;
+        self.lookups += r.lookups;
+    }
+}
+
+async fn replay(rep: &mut Report, plans: &str, which: &str) {
+    let quick = hcommon::tier_quick();
+    let behs = read_ndjson(plans);
+    let vars = variants(which, quick);
+    let root = scratch("replay");
+    let mut stats = Stats::default();
+    let mut reported = std::collections::BTreeSet::new();
+    for (bi, beh) in behs.iter().enumerate() {
+        for (vi, var) in vars.iter().enumerate() {
+            if quick && bi % vars.len() != vi {
+                continue;
+            }
+            rep.eval(1);
+            let dir = root.join(format!("b{bi}v{vi}"));
+            let seed = hcommon::seed().wrapping_mul(1000003) ^ (bi as u64) << 8 ^ vi as u64;
+            let r = tokio::spawn({
+                let which = which.to_string();
+                let beh = beh.clone();
+                let var = Variant { cfg: var.cfg.clone(), rule: var.rule, name: var.name };
+                async move {
+                    let mut st = Stats::default();
+                    let r = run_behaviour(&which, &beh, &var, dir, seed, &mut st).await;
+                    (r, st)
+                }
+            })
+            .await;
+            match r {
+                Ok((res, st)) => {
+                    stats.appends += st.appends;
+                    stats.accepted += st.accepted;
+                    stats.reopens += st.reopens;
+                    stats.scans += st.scans;
+                    stats.events_compared += st.events_compared;
+                    stats.lookups += st.lookups;
+                    stats.segments += st.segments;
+                    for (k, v) in st.rejects {
+                        *stats.rejects.entry(k).or_default() += v;
+                    }
+                    if let Err((key, detail)) = res {
+                        if reported.insert((key.clone(), var.name)) {
+                            rep.violation(&key, json!({"variant": var.name, "config": var.cfg.describe(), "detail": detail}),
+                                json!({"variant": var.name, "seed": seed, "behaviour": beh}));
+                        } else {
+                            rep.violations += 1;
+                        }
+                    }
+                }
+                Err(join) => {
+                    let msg = if join.is_panic() { format!("panic: {}", hcommon::last_panic()) } else { "cancelled".into() };
+                    rep.violation(&format!("{which}:panic"), json!({"variant": var.name, "problem": msg}), json!({"variant": var.name, "seed": seed, "behaviour": beh}));
+                }
+            }
+        }
+        if bi < 2 {
+            let steps = beh["steps"].as_array().unwrap();
+            rep.sample(json!(steps.iter().take(12).map(|s| json!({"tx": s["tx"], "res": s["res"]["class"]})).collect::<Vec<_>>()));
+        }
+    }
+    let _ = std::fs::remove_dir_all(&root);
+    rep.set("behaviours", json!(behs.len()));
+    rep.set("appends", json!(stats.appends));
+    rep.set("accepted", json!(stats.accepted));
+    rep.set("rejects", json!(stats.rejects));
+    rep.set("reopens", json!(stats.reopens));
+    rep.set("scans", json!(stats.scans));
+    rep.set("events_compared", json!(stats.events_compared));
+    rep.set("lookups", json!(stats.lookups));
+    rep.set("segments_created", json!(stats.segments));
+    rep.set("variants", json!(vars.iter().map(|v| v.name).collect::<Vec<_>>()));
+    for k in stats.rejects.keys() {
+        rep.class(format!("reject:{k}"));
+    }
+    rep.class("accept");
+    for v in &vars {
+        rep.class(format!("variant:{}", v.name));
+    }
+}
